@@ -99,6 +99,8 @@ def perturbations(rng, op, k, sizes, guards, all_ops, tier):
         out.append(("combined", op, k ^ 1, s2))
     if tier == "quick" and len(out) > 24:
         keep = [out[0]] + (rng.sample(shifts, min(3, len(shifts))) if shifts else [])
+        # a size one off in either direction is the cheapest wrong envelope: always kept
+        keep += [x for x in out if x[0].startswith("size[") and (x[0].endswith("=n+1") or x[0].endswith("=n-1"))]
         opsl = [x for x in out if x[0].startswith("op=")]
         keep += rng.sample(opsl, min(5, len(opsl)))
         rest = [x for x in out[1:] if x not in keep]
@@ -114,6 +116,159 @@ def perturbations(rng, op, k, sizes, guards, all_ops, tier):
             s2 = (list(s2) + [8] * 32)[:nb]
         res.append((lab, o2, k2, s2))
     return res
+
+
+def exact_size_pass(ctx, case, fails, hist, excused_classes=()):
+    """C03: a skeleton accepts a fixed-size buffer (a bundle in particular) only at exactly the
+    prescribed size: every fixed-size slot of every method, one byte short, one byte and four
+    bytes long, delivered to the compiled skeletons of all three backends, must be refused
+    without entering the implementation"""
+    with C.Scratch() as tmp:
+        langs = ("c", "cpp", "rust")
+        b = e2.build(case, os.path.join(tmp, "w"), ctx.idlc["debug"], langs=langs, valuations=1, seed=ctx.seed, sanitize=True)
+        if not b["ok"]:
+            return
+        r = e2.run(b, timeout=120)
+        good = {}
+        for a in B.analyse(ctx, case, b, r):
+            call = a["call"]
+            if call["stub"] == "c" and a["env"] is not None and call["val"] == 0 and not a["pc"].get("optional"):
+                mo_ = B.method_of(case, call["iface"], call["method"])
+                mw_ = B.model_wire(ctx, case, call["iface"], mo_[1], a["plan"])
+                secs_ = [int(x) for x in mw_.get("sections", "").split(",") if x]
+                if secs_ != sorted(secs_) or (method_classes(case, mo_[1]) & set(excused_classes)):
+                    continue
+                sizes = [s_.get("size", 0) for s_ in a["env"]["slots"] if s_["c"] in ("bi", "bo")]
+                good[(call["iface"], call["method"])] = (a["env"]["op"], a["env"]["k"], sizes)
+        lines, meta = [], []
+        for (iface, mname), (op, k, sizes) in sorted(good.items()):
+            owner, m, _ = B.method_of(case, iface, mname)
+            mw = model_skel(ctx, case, iface, True, op, k, sizes)
+            guards = [tuple(int(x) for x in g.split(":")) for g in mw.get("guards", "").split()]
+            for skel in langs:
+                for gi, gsz in guards:
+                    for nv in (gsz - 1, gsz + 1, gsz + 4):
+                        if nv < 0 or gi >= len(sizes):
+                            continue
+                        s2 = list(sizes)
+                        s2[gi] = nv
+                        lines.append(f"{skel} {iface} {mname} {op} {k} {len(s2)} " + " ".join(map(str, s2)))
+                        meta.append({"skel": skel, "iface": iface, "method": mname, "slot": gi, "prescribed": gsz, "delivered": nv, "m": m})
+        if not lines:
+            return
+        pf = os.path.join(tmp, "perturb.txt")
+        open(pf, "w").write("\n".join(lines) + "\n")
+        r2 = e2.run(b, timeout=300, perturb_file=pf)
+        groups, cur = [], None
+        for x in r2["records"]:
+            if x.get("ev") == "pcall":
+                cur = {"recs": []}
+                groups.append(cur)
+            elif cur is not None:
+                cur["recs"].append(x)
+        for gi_, me in enumerate(meta):
+            if gi_ >= len(groups):
+                break
+            g = groups[gi_]
+            hist["exact_size_envelopes"] = hist.get("exact_size_envelopes", 0) + 1
+            pert = next((x for x in g["recs"] if x.get("ev") == "perturb"), None)
+            idx_p = g["recs"].index(pert) if pert in g["recs"] else len(g["recs"])
+            entered = any(x.get("ev") == "impl" for x in g["recs"][:idx_p])
+            status = pert["status"] if pert else None
+            if pert is None or entered or status == 0:
+                fails.append({"case": {"id": case["id"], "method": idl.render_member(me["m"]).strip()}, "failures": [
+                    {"error": "a skeleton accepted a fixed-size buffer whose size is not the prescribed one" if pert is not None else
+                              "a skeleton crashed on a fixed-size buffer of the wrong size",
+                     "skeleton": me["skel"], "slot": me["slot"], "prescribed": me["prescribed"], "delivered": me["delivered"],
+                     "implementation_entered": entered, "status": status}]})
+
+
+HUGE_CASE = {"id": "C04-huge", "main": "main.idl", "incdirs": [], "files": [{"path": "main.idl", "nodes": [
+    {"k": "struct", "name": "Page", "fields": [{"type": "uint8", "count": 65535, "name": "bytes"}, {"type": "uint8", "count": 1, "name": "last"}]},
+    {"k": "struct", "name": "Image", "fields": [{"type": "Page", "count": 65535, "name": "pages"}, {"type": "Page", "count": 1, "name": "tail"},
+                                                  {"type": "uint64", "count": 1, "name": "stamp"}]},
+    {"k": "struct", "name": "Half", "fields": [{"type": "Page", "count": 32768, "name": "pages"}, {"type": "uint64", "count": 1, "name": "stamp"}]},
+    {"k": "struct", "name": "S8", "fields": [{"type": "uint32", "count": 1, "name": "a"}, {"type": "uint32", "count": 1, "name": "b"}]},
+    {"k": "interface", "name": "IStore", "base": None, "members": [
+        {"k": "method", "name": "put", "optional": False, "doc": None, "params": [
+            {"dir": "in", "type": "Image", "arr": None, "name": "img"}, {"dir": "in", "type": "uint32", "arr": None, "name": "x"}, {"dir": "in", "type": "S8", "arr": None, "name": "s"}]},
+        {"k": "method", "name": "get", "optional": False, "doc": None, "params": [
+            {"dir": "out", "type": "Image", "arr": None, "name": "img"}, {"dir": "out", "type": "uint16", "arr": None, "name": "y"}, {"dir": "out", "type": "uint8", "arr": None, "name": "z"}]},
+        {"k": "method", "name": "half", "optional": False, "doc": None, "params": [
+            {"dir": "in", "type": "Half", "arr": None, "name": "h"}, {"dir": "out", "type": "Half", "arr": None, "name": "g"}]}]}]}]}
+
+
+def expected_guards(case, m):
+    """the Mink rule restated for methods that have only fixed-size data parameters (no arrays,
+    buffers or objects): per direction the bundle of all values of at most 16 bytes (when there
+    are two or more) comes first, then every other parameter as a buffer of its own in
+    declaration order; every such slot is guarded with its exact size. Pure arithmetic on the
+    declaration — usable for structs the model cannot expand (2^32 bytes and more)."""
+    slots = []
+    for d in ("in", "out"):
+        ps = [p for p in m["params"] if p["dir"] == d]
+        for p in ps:
+            if p.get("arr") is not None or idl.param_kind(case, p) not in ("prim", "small", "big"):
+                return None
+            if idl.struct_has_objects(case, p["type"]) if p["type"] in idl.struct_table(case) else False:
+                return None
+        small = [p for p in ps if idl.type_size(case, p["type"]) <= 16]
+        bundled = small if len(small) >= 2 else []
+        if bundled:
+            slots.append(sum(idl.type_size(case, p["type"]) for p in bundled))
+        for p in ps:
+            if p not in bundled:
+                slots.append(idl.type_size(case, p["type"]))
+    return sorted(enumerate(slots))
+
+
+def static_guard_pass(ctx, case, fails, disagree, hist, use_model=True):
+    """the sizes the emitted C and C++ skeletons compare fixed-size slots with, read from the
+    generated text, against the model's guards — for structs of any size, including those no
+    test could allocate (2^31, 2^32 bytes and more)"""
+    import re
+    with C.Scratch() as tmp:
+        root = os.path.join(tmp, "src")
+        idl.render_case(case, root)
+        from .. import engines as E_
+        texts = {}
+        for mode, fn in (("c-skel", "s.h"), ("cpp-skel", "s.hpp")):
+            rc, err = E_.run_idlc(ctx, root, case["main"], case.get("incdirs", []), mode, os.path.join(tmp, fn))
+            ctx.bump("evaluations")
+            if rc != 0:
+                fails.append({"case": {"id": case["id"]}, "failures": [{"error": f"valid file refused ({mode})", "rc": rc, "stderr": err[-200:]}]})
+                return
+            texts[mode] = open(os.path.join(tmp, fn)).read()
+        for node in case["files"][0]["nodes"]:
+            if node["k"] != "interface":
+                continue
+            iface = node["name"]
+            for owner, m, op in idl.flat_methods(case, iface):
+                if use_model:
+                    k = pack(mink_counts(case, m))
+                    nb = unpack(k)[0] + unpack(k)[1]
+                    mw = model_skel(ctx, case, iface, True, op, k, [0] * nb)
+                    want = sorted(tuple(int(x) for x in g.split(":")) for g in mw.get("guards", "").split())
+                else:
+                    want = expected_guards(case, m)
+                    if want is None:
+                        continue
+                for mode, text in texts.items():
+                    label = (r"case\s+%s_OP_%s\s*:" % (re.escape(owner), re.escape(m["name"]))) if mode == "c-skel" else (r"case\s+OP_%s\s*:" % re.escape(m["name"]))
+                    # the block of THIS interface's dispatch: the first label after the interface's own macro / class
+                    start = text.find(f"{iface}_DEFINE_INVOKE") if mode == "c-skel" else text.find(f"class {iface}ImplBase")
+                    mm = re.search(label, text[max(start, 0):])
+                    if not mm:
+                        continue
+                    seg = text[max(start, 0) + mm.end():]
+                    nxt = re.search(r"\bcase\s+\w+\s*:|\bdefault\s*:", seg)
+                    seg = seg[:nxt.start()] if nxt else seg
+                    got = sorted((int(i_), int(n_)) for i_, n_ in re.findall(r"a\[(\d+)\]\.b\.size\s*!=\s*(\d+)", seg))
+                    hist["static_guards"] = hist.get("static_guards", 0) + len(got)
+                    if got != want:
+                        fails.append({"case": {"id": case["id"], "method": idl.render_member(m).strip()}, "failures": [
+                            {"error": "the size a skeleton compares a fixed-size slot with is not the size of the parameter",
+                             "skeleton": mode, "emitted (slot, size)": got, "prescribed (slot, size)": want}]})
 
 
 def run(ctx, prop):
@@ -302,6 +457,16 @@ def run(ctx, prop):
                     known_seen.setdefault(hit[0], rec["error"])
                 else:
                     oracle_fail.append({"case": {"id": case["id"], "method": idl.render_member(me["m"]).strip()}, "failures": [rec]})
+    # ---- what a skeleton compares an envelope with is the counts word: a method whose counts do
+    # not fit it must never reach a skeleton (an accepted one is emitted with a wrapped word, and
+    # the skeleton then serves a malformed envelope as if it were well-formed): the shared
+    # over-limit family must be refused in every backend mode
+    # ---- the emitted guards themselves, incl. for structs too large to be exercised at run time
+    static_guard_pass(ctx, HUGE_CASE, oracle_fail, disagree, hist, use_model=False)
+    static_guard_pass(ctx, split_padded(gen.coverage_case("C04-guards"))[0], oracle_fail, disagree, hist)
+    from .. import bounds as BD
+    hist["over_limit_runs"] = BD.must_refuse_family(ctx, oracle_fail, modes=("c", "c-skel", "cpp-skel", "rust"), label="C04-over-limit")
+    ctx.bump("evaluations", hist["over_limit_runs"])
     known_lines = []
     for kid, k in listed.items():
         if kid in known_seen:
